@@ -417,7 +417,32 @@ def check_class_level_state(repo: Repo, rep: Report, rule: str = "C13.no-shared-
                 rep.bad(rule, c.qualname, f"class-level-mutable:{attr}", f"`{attr} = {src(v)}` is bound at class level and mutated through the instance in {f.qualname} (`{src(n)[:60]}`): every {c.name} shares that one object, so two live instances (or one abandoned half-way) corrupt each other's state", c.module.relpath, v.lineno)
             else:
                 rep.ok(rule, c.qualname, f"class-level `{attr}` is never mutated through an instance" if not writers else f"class-level `{attr}` is re-bound per instance in __init__", f"{c.module.relpath}:{v.lineno}", nontrivial=False)
-    rep.ok(rule, "fickling/* classes", f"{n_cls} classes on the decompile/analysis path scanned; {n_attr} class-level mutable attribute(s) besides the import-time registries", "", nontrivial=False)
+    # a one-shot iterator bound at class or module level (a generator expression, map/filter/zip/iter/reversed/enumerate
+    # object) is state as well: the first code that iterates it uses it up, every later reader - the next call, the next
+    # pickle - finds it empty
+    from ..pitfalls import ONE_SHOT
+
+    def one_shot(v):
+        return isinstance(v, ast.GeneratorExp) or (isinstance(v, ast.Call) and (dotted(v.func) or "") in ONE_SHOT)
+
+    n_it = 0
+    for c in repo.classes.values():
+        if not c.module.name.startswith("fickling") or (only is not None and c.qualname not in only):
+            continue
+        for attr, v in c.attrs.items():
+            if one_shot(v):
+                n_it += 1
+                rep.bad(rule, c.qualname, f"class-level-one-shot-iterator:{attr}", f"`{attr} = {src(v)[:70]}` binds ONE iterator object at class level: the first iteration over it (first call, first pickle) exhausts it and every later reader sees nothing, so what a query answers depends on what ran before it", c.module.relpath, v.lineno)
+    if only is None:
+        for m in repo.modules.values():
+            if not m.name.startswith("fickling"):
+                continue
+            for name, vals in m.assigns.items():
+                for v in vals:
+                    if one_shot(v):
+                        n_it += 1
+                        rep.bad(rule, f"{m.name}.{name}", f"module-level-one-shot-iterator:{name}", f"`{name} = {src(v)[:70]}` binds ONE iterator object at import: the first iteration exhausts it for the rest of the process", m.relpath, v.lineno)
+    rep.ok(rule, "fickling/* classes", f"{n_cls} classes on the decompile/analysis path scanned; {n_attr} class-level mutable attribute(s) besides the import-time registries; {n_it} one-shot iterators bound at class/module level", "", nontrivial=False)
 
 
 # module-level containers that are registries filled while classes are being created (import time), never per pickle
